@@ -11,6 +11,11 @@ def main():
     cmd = base['cmd'].replace('<file>', xml)
     env = dict(os.environ)
     env.pop('PYMTL3_VERIF', None)
+    # PV_REPO=<worktree>: run the same suite on a scratch worktree of /repo (used by tools/try_seed.sh)
+    alt = os.environ.get('PV_REPO')
+    if alt:
+      cmd = cmd.replace('cd /repo', 'cd ' + alt)
+      env['PYTHONPATH'] = alt
     r = subprocess.run(cmd, shell=True, env=env, stdout=subprocess.PIPE, stderr=subprocess.STDOUT, text=True)
     passed = set()
     for tc in ET.parse(xml).getroot().iter('testcase'):
